@@ -28,15 +28,18 @@ Spec/VmTar.vos Spec/VmTar.vok Spec/VmTar.required_vos: Spec/VmTar.v Base/Layout.
 Model/Vhd.vo Model/Vhd.glob Model/Vhd.v.beautified Model/Vhd.required_vo: Model/Vhd.v Base/Arith.vo Base/Plan.vo Base/Table.vo Gen/Consts.vo
 Model/Vhd.vio: Model/Vhd.v Base/Arith.vio Base/Plan.vio Base/Table.vio Gen/Consts.vio
 Model/Vhd.vos Model/Vhd.vok Model/Vhd.required_vos: Model/Vhd.v Base/Arith.vos Base/Plan.vos Base/Table.vos Gen/Consts.vos
-Model/VmTar.vo Model/VmTar.glob Model/VmTar.v.beautified Model/VmTar.required_vo: Model/VmTar.v Base/Layout.vo Gen/VmTar.vo
-Model/VmTar.vio: Model/VmTar.v Base/Layout.vio Gen/VmTar.vio
-Model/VmTar.vos Model/VmTar.vok Model/VmTar.required_vos: Model/VmTar.v Base/Layout.vos Gen/VmTar.vos
+Model/VmTar.vo Model/VmTar.glob Model/VmTar.v.beautified Model/VmTar.required_vo: Model/VmTar.v Base/Layout.vo Spec/VmTar.vo Gen/VmTar.vo
+Model/VmTar.vio: Model/VmTar.v Base/Layout.vio Spec/VmTar.vio Gen/VmTar.vio
+Model/VmTar.vos Model/VmTar.vok Model/VmTar.required_vos: Model/VmTar.v Base/Layout.vos Spec/VmTar.vos Gen/VmTar.vos
 Proofs/Vhd.vo Proofs/Vhd.glob Proofs/Vhd.v.beautified Proofs/Vhd.required_vo: Proofs/Vhd.v Base/Arith.vo Base/Plan.vo Base/Table.vo Model/Vhd.vo
 Proofs/Vhd.vio: Proofs/Vhd.v Base/Arith.vio Base/Plan.vio Base/Table.vio Model/Vhd.vio
 Proofs/Vhd.vos Proofs/Vhd.vok Proofs/Vhd.required_vos: Proofs/Vhd.v Base/Arith.vos Base/Plan.vos Base/Table.vos Model/Vhd.vos
+Proofs/VmTar.vo Proofs/VmTar.glob Proofs/VmTar.v.beautified Proofs/VmTar.required_vo: Proofs/VmTar.v Base/Layout.vo Spec/VmTar.vo Model/VmTar.vo Gen/VmTar.vo Base/Arith.vo
+Proofs/VmTar.vio: Proofs/VmTar.v Base/Layout.vio Spec/VmTar.vio Model/VmTar.vio Gen/VmTar.vio Base/Arith.vio
+Proofs/VmTar.vos Proofs/VmTar.vok Proofs/VmTar.required_vos: Proofs/VmTar.v Base/Layout.vos Spec/VmTar.vos Model/VmTar.vos Gen/VmTar.vos Base/Arith.vos
 Props/C04.vo Props/C04.glob Props/C04.v.beautified Props/C04.required_vo: Props/C04.v Base/Plan.vo Base/Table.vo Model/Vhd.vo Proofs/Vhd.vo
 Props/C04.vio: Props/C04.v Base/Plan.vio Base/Table.vio Model/Vhd.vio Proofs/Vhd.vio
 Props/C04.vos Props/C04.vok Props/C04.required_vos: Props/C04.v Base/Plan.vos Base/Table.vos Model/Vhd.vos Proofs/Vhd.vos
-Props/C20.vo Props/C20.glob Props/C20.v.beautified Props/C20.required_vo: Props/C20.v Spec/VmTar.vo Model/VmTar.vo
-Props/C20.vio: Props/C20.v Spec/VmTar.vio Model/VmTar.vio
-Props/C20.vos Props/C20.vok Props/C20.required_vos: Props/C20.v Spec/VmTar.vos Model/VmTar.vos
+Props/C20.vo Props/C20.glob Props/C20.v.beautified Props/C20.required_vo: Props/C20.v Base/Layout.vo Spec/VmTar.vo Model/VmTar.vo Proofs/VmTar.vo
+Props/C20.vio: Props/C20.v Base/Layout.vio Spec/VmTar.vio Model/VmTar.vio Proofs/VmTar.vio
+Props/C20.vos Props/C20.vok Props/C20.required_vos: Props/C20.v Base/Layout.vos Spec/VmTar.vos Model/VmTar.vos Proofs/VmTar.vos
